@@ -44,6 +44,7 @@ theorem Stage3R.basic {pt : PT} (h : Stage3R pt) : BasicWT pt := by
     | const => exact BasicWT.const hb
     | func => exact BasicWT.func hb
     | table => exact BasicWT.table hb
+    | point => exact BasicWT.point hb
     | atomicMulti _ => exact BasicWT.atomicMulti hb
   | seq _ ih => exact BasicWT.seq ih
   | rep _ ih => exact BasicWT.rep ih
